@@ -11,13 +11,17 @@ import (
 // C09 — Transaction.verify accepts exactly the documented rule set; decoding is canonical.
 
 //vp:prop C09
-//vp:bounds signatures 0..2, inputs 0..2, outputs 0..2 chosen independently (so |sigs| != |in| is covered); Length, Type, InnerHash, every signature, input hash, output address/coins/hours free; signed and unsigned mode
+//vp:bounds signatures 0..2, inputs 0..2, outputs 0..2 (thorough 0..3) chosen independently (so |sigs| != |in| is covered); Length, Type, InnerHash, every signature, input hash, output address/coins/hours free; signed and unsigned mode
 //vp:assume SHA256 is collision free (A-HASH); signature recovery (cipher.VerifySignatureRecoverPubKey) is an uninterpreted predicate of (signature, message hash)
 //vp:rule github.com/skycoin/skycoin/src/cipher.VerifySignatureRecoverPubKey uf:sigrecover
 //vp:noreplay hashes and signature recovery are uninterpreted
 //vp:outside element counts near the 65535 limit (the comparison constants are not reached with <= 2 elements)
 func vpH_C09_VerifyIffRules() {
-	nS, nI, nO := vpLen("nSigs", 0, 2), vpLen("nIn", 0, 2), vpLen("nOut", 0, 2)
+	maxOut := 2
+	if vpThorough() {
+		maxOut = 3 // three amounts: an overflow before the last addition
+	}
+	nS, nI, nO := vpLen("nSigs", 0, 2), vpLen("nIn", 0, 2), vpLen("nOut", 0, maxOut)
 	signed := vpBool("signed")
 	var txn Transaction
 	txn.Length = vpU32("length")
